@@ -38,7 +38,7 @@ class Desc:
                     return u + self._proj(pr[ln:])
         if nm and self.expand and not (1 <= base <= fn.argc) and depth < MAXD:
             d0 = fn.single_def(base)
-            if d0 is not None and (d0[1] == "call" or (d0[1] == "assign" and d0[2]["rv"]["r"] in ("use", "cast", "bin", "len"))):
+            if d0 is not None and (d0[1] == "call" or (d0[1] == "assign" and d0[2]["rv"]["r"] in ("use", "cast", "bin", "len", "ref"))):
                 nm = None
         if nm:
             return nm + self._proj(proj)
@@ -156,19 +156,21 @@ class Facts6:
                 if rv["r"] == "bin" and rv["op"] in OPS and len(s["lhs"]) == 1:
                     tests = fn.bool_tests(s["lhs"][0])
                     if tests:
-                        for d in (self.d, self.dx):
-                            e = (tests, d.op(rv["a"]), OPS[rv["op"]], d.op(rv["b"]))
-                            if e not in out:
-                                out.append(e)
+                        for da in (self.d, self.dx):
+                            for db in (self.d, self.dx):
+                                e = (tests, da.op(rv["a"]), OPS[rv["op"]], db.op(rv["b"]))
+                                if e not in out:
+                                    out.append(e)
             for c in fn.calls(r"cmp::Partial(Ord|Eq)(<.*>)?>?::(lt|le|gt|ge|eq|ne)$|::(lt|le|gt|ge|eq|ne)$"):
                 m = c.name.rsplit("::", 1)[-1]
                 if m in CALL_OPS and len(c.args) == 2 and len(c.dest) == 1:
                     tests = fn.bool_tests(c.dest[0])
                     if tests:
-                        for d in (self.d, self.dx):
-                            e = (tests, d.op(c.args[0]).lstrip("&"), CALL_OPS[m], d.op(c.args[1]).lstrip("&"))
-                            if e not in out:
-                                out.append(e)
+                        for da in (self.d, self.dx):
+                            for db in (self.d, self.dx):
+                                e = (tests, da.op(c.args[0]).lstrip("&"), CALL_OPS[m], db.op(c.args[1]).lstrip("&"))
+                                if e not in out:
+                                    out.append(e)
             # is_empty / is_some style predicates
             for c in fn.calls(r"::is_empty$"):
                 tests = fn.bool_tests(c.dest[0]) if len(c.dest) == 1 else []
